@@ -1244,4 +1244,37 @@ def runDeck (m : Mode) (D : Dims) (T : Tables α) (P : Prog α) : Option (Result
 
 end Pre
 
+/-! ## BoxManager (BoxManager.cpp; not used by FieldProps itself, which drives `Box` directly) -/
+
+/-- `m_inputBox`, `m_keywordBox` (the global box is implicit) -/
+structure BoxMgr where
+  input : Option Box
+  keyword : Option Box
+  deriving DecidableEq, Repr
+
+/-- `BoxManager::getActiveBox`: keyword box, else input box, else the global box -/
+def BoxMgr.active (D : Dims) (m : BoxMgr) : Box :=
+  match m.keyword with
+  | some b => b
+  | none =>
+    match m.input with
+    | some b => b
+    | none => Box.global D
+
+inductive MgrOp where
+  | setInput (i1 i2 j1 j2 k1 k2 : Int)
+  | endInput
+  | setKeyword (i1 i2 j1 j2 k1 k2 : Int)
+  | endKeyword
+  | endSection
+  deriving Repr
+
+/-- one call; `none` = the call throws (and leaves the manager unchanged) -/
+def BoxMgr.step (D : Dims) (m : BoxMgr) : MgrOp → Option BoxMgr
+  | .setInput i1 i2 j1 j2 k1 k2 => (Box.init D i1 i2 j1 j2 k1 k2).map fun b => { m with input := some b }
+  | .setKeyword i1 i2 j1 j2 k1 k2 => (Box.init D i1 i2 j1 j2 k1 k2).map fun b => { m with keyword := some b }
+  | .endKeyword => some { m with keyword := none }
+  | .endInput => if m.keyword.isSome then none else some { m with input := none }
+  | .endSection => if m.keyword.isSome then none else some { m with input := none }
+
 end OpmVerif.FieldProps
